@@ -350,6 +350,8 @@ def build_sqrt(g):
     g.ctrace('tr_UQ_sv', [('s', 'S'), ('v', 'V3')], lambda s, v: UnitQuaternion(s, v).vec, [1, V_AX],
              sampler=lambda rng: [float(rng.normal()), rng.normal(size=3) * log_uniform(rng, 1e-3, 1e3)])
     g.ctrace('tr_UQ_list', [('q', 'V4')], lambda q: UnitQuaternion(list(q)).vec, [[1, 2, 3, 4]], sampler=s_q)
+    # the ndarray form is normalised like the list form since fix d0fc1b2 (it raised IndexError for a non-unit vector)
+    g.ctrace('tr_UQ_vec', [('q', 'V4')], lambda q: UnitQuaternion(q).vec, [[1, 2, 3, 4]], sampler=s_q)
     for u in ('rad', 'deg'):
         for ax in 'xyz':
             g.ctrace(f'tr_UQ_R{ax}_{u}', [('a', 'S')], (lambda ax, u: lambda a: getattr(UnitQuaternion, 'R' + ax)(a, u).vec)(ax, u), [0.3],
@@ -476,7 +478,7 @@ class Oracle:
                 what = (f"{clsname}.{op}: the result (validity residual {rres:.3g} <= 1e-9) of an operator on valid operands is "
                         f"refused by the class constructor's strict re-validation -> {type(ex).__name__}")
             else:
-                key = f'oracle:{clsname}.{op}:invalid-result-refused-by-constructor'
+                key = f'oracle:{clsname}.{op}:computes-invalid-value-refused-by-constructor'
                 what = f"{clsname}.{op} on valid operands computes an INVALID value (residual {rres:.3g}) which the constructor then refuses"
             self.ctx.fail(key, what, dict(replay, rejected_value=[np.asarray(e, dtype=float).tolist() for e in rej], rejected_residual=rres))
             return
@@ -627,6 +629,7 @@ class Oracle:
             self.call('unit', 'Q', lambda: base.unit(qv), qv)
             self.call('UnitQuaternion(s,v)', 'Q', lambda: UnitQuaternion(qv[0], qv[1:]).data, qv, multi=True)
             self.call('UnitQuaternion(list)', 'Q', lambda: UnitQuaternion(list(qv)).data, qv, multi=True)
+            self.call('UnitQuaternion(ndarray4)', 'Q', lambda: UnitQuaternion(np.asarray(qv)).data, qv, multi=True)
             self.call('Quaternion.unit', 'Q', lambda: Quaternion_unit(qv), qv, multi=True)
             qq = np.array([qv, rng.normal(size=4) * 3.0])
             self.call('UnitQuaternion(ndarray(N,4))', 'Q', lambda: UnitQuaternion(qq).data, qq, multi=True)
